@@ -216,8 +216,8 @@ func (s *sample) explore(thorough bool, siblings []*sample) {
 		for _, k := range []int{1, 2, 16} {
 			h := len(sig) / 2
 			forms = append(forms, append(append(append(make([]byte, k), sig[:h]...), make([]byte, k)...), sig[h:]...)) // 0^k r 0^k s
-			forms = append(forms, append(make([]byte, k), sig...))                                                   // 0^k sig
-			forms = append(forms, append(bytes.Clone(sig), make([]byte, k)...))                                     // sig 0^k
+			forms = append(forms, append(make([]byte, k), sig...))                                                     // 0^k sig
+			forms = append(forms, append(bytes.Clone(sig), make([]byte, k)...))                                        // sig 0^k
 		}
 		for fi, f := range forms {
 			es := append([]*rc.Item{}, ents...)
